@@ -269,3 +269,81 @@ def smul(a, b):
 
 def is_nonneg(a):
     return a in (ZERO, POS, NONNEG)
+
+
+def sign_of(t, assume, axiom=None):
+    """Sign of a value term.  `assume(text)` records an assumption; `axiom(term)` may return a sign for a term
+    (repo-specific facts such as sortedness of a point array) or None."""
+    if axiom is not None:
+        ax = axiom(t)
+        if ax is not None:
+            return ax
+    k = t[0]
+    if k == "c":
+        try:
+            v = ast.literal_eval(t[1])
+        except Exception:
+            return STOP
+        if isinstance(v, bool) or v is None or isinstance(v, str):
+            return STOP
+        return POS if v > 0 else (NEG if v < 0 else ZERO)
+    if k == "neg":
+        return sneg(sign_of(t[1], assume, axiom))
+    if k == "call":
+        f = t[1]
+        fname = f[2] if f[0] == "a" else (f[1] if f[0] == "n" else None)
+        if fname in ("abs", "absolute", "fabs", "norm", "len", "sqrt", "square", "size"):
+            return NONNEG
+        if fname in ("exp", "cosh"):
+            return POS
+        if fname == "max" and t[2]:
+            ss = [sign_of(a, assume, axiom) for a in t[2]]
+            if any(is_nonneg(s) for s in ss) and len(ss) >= 2:
+                return POS if POS in ss else NONNEG
+            if len(ss) == 1:
+                return ss[0] if is_nonneg(ss[0]) else STOP
+            return STOP
+        if fname in ("sum", "prod", "mean", "amax", "amin", "array", "asarray", "float") and t[2]:
+            inner = sign_of(t[2][0], assume, axiom)
+            return inner if is_nonneg(inner) else STOP
+        return STOP
+    if k == "op":
+        op, args = t[1], t[2]
+        if op == "Add":
+            r = ZERO
+            for a in args:
+                r = sadd(r, sign_of(a, assume, axiom))
+            return r
+        if op == "Mult":
+            r = POS
+            for a in args:
+                r = smul(r, sign_of(a, assume, axiom))
+            return r
+        if op == "Sub":
+            return sadd(sign_of(args[0], assume, axiom), sneg(sign_of(args[1], assume, axiom)))
+        if op == "Div":
+            d = sign_of(args[1], assume, axiom)
+            if d in (NONNEG, NONPOS):
+                assume("divisors are non-zero (e.g. len(x) ** (1/norm) with a non-empty x)")
+                d = POS if d == NONNEG else NEG
+            return smul(sign_of(args[0], assume, axiom), d)
+        if op == "Pow":
+            b = sign_of(args[0], assume, axiom)
+            if b in (POS, NONNEG, ZERO):
+                return b if b != ZERO else NONNEG
+            e = args[1]
+            if e[0] == "c":
+                try:
+                    ev = ast.literal_eval(e[1])
+                    if isinstance(ev, int) and ev % 2 == 0:
+                        return NONNEG
+                except Exception:
+                    pass
+            return STOP
+    if k == "ifexp":
+        return sjoin(sign_of(t[2], assume, axiom), sign_of(t[3], assume, axiom))
+    if k == "comp":
+        return sign_of(t[2], assume, axiom)
+    return STOP
+
+
